@@ -1396,6 +1396,12 @@ func (r *reader) run(ctx context.Context, offset int64) {
 						log.Printf("the kafka reader is reading before the first offset for partition %d of %s, skipping from offset %d to %d (%d messages)", r.partition, r.topic, toHumanOffset(offset), first, first-offset)
 					})
 					offset, errcount = first, 0
+					// The connection keeps its own fetch offset, it has to be moved
+					// as well or the next fetch would be out of range again.
+					if _, err := conn.Seek(offset, SeekAbsolute|SeekDontCheck); err != nil {
+						conn.Close()
+						break readLoop
+					}
 					continue // retry immediately so we don't keep falling behind due to the backoff
 
 				case offset < last:
